@@ -4,6 +4,9 @@ Decides: the tracer's enabled flag is restored on *every* exit (normal,
 exception, GeneratorExit at the yield) of every region that flips it, the flag
 has no writer outside the designated methods, and the region constructors are
 only used as context managers.
+Further clauses (added later): C05.record: every predicate callback reaches _update_metrics; an early return
+is allowed only under the one-shot-iterator guard of its operand and never under a condition that reads tracer
+state.
 """
 
 from __future__ import annotations
